@@ -198,5 +198,13 @@ func copyFromZipArchive(archiveFile *zip.File, dstPath string) error {
 		return err
 	}
 
+	// MaxUnpackSize bytes were copied without reaching the end of the file:
+	// the file must end here, or the unpacked file would be cut off.
+	if n, err := io.CopyN(io.Discard, fileReader, 1); n > 0 {
+		return fmt.Errorf("file is larger than the maximum unpack size of %d bytes", MaxUnpackSize)
+	} else if !errors.Is(err, io.EOF) {
+		return err
+	}
+
 	return nil
 }
